@@ -4,6 +4,7 @@ import (
 	"fmt"
 	"sort"
 	"sync"
+	"unicode/utf16"
 
 	"github.com/yorkie-team/yorkie/pkg/document"
 	"github.com/yorkie-team/yorkie/pkg/document/crdt"
@@ -443,6 +444,33 @@ func GuardF49(d *document.Document, s Step) (Step, string) {
 		if parent == nil || parent.RemovedAt() != nil {
 			return Step{}, "F49"
 		}
+	}
+	return s, ""
+}
+
+// GuardF35 — known finding F35 (C07): a text edit or style whose range boundary
+// falls between the two UTF-16 units of a surrogate pair splits the pair into
+// halves no Go string can hold; what the replica shows afterwards depends on
+// whether its working copy was rebuilt in between (seen as a schedule-dependent
+// CLONE!=ROOT in a C16 workload). Such steps are skipped (counted) where the
+// schedule is not owned by the harness.
+func GuardF35(d *document.Document, s Step) (Step, string) {
+	if s.Op != "tedit" && s.Op != "tstyle" {
+		return s, ""
+	}
+	tx := d.Root().GetText("t")
+	if tx == nil {
+		return s, ""
+	}
+	units := utf16.Encode([]rune(tx.String()))
+	n := len(units)
+	from := s.A % (n + 1)
+	to := min(n, from+s.B%4)
+	splits := func(i int) bool {
+		return i > 0 && i < n && units[i-1] >= 0xD800 && units[i-1] <= 0xDBFF && units[i] >= 0xDC00 && units[i] <= 0xDFFF
+	}
+	if splits(from) || splits(to) {
+		return Step{}, "F35"
 	}
 	return s, ""
 }
